@@ -89,21 +89,24 @@ def build_file_response(path,
 
     if not isfile(path):
         raise NotFound(is_breaking=False)
+    file_obj = None
     try:
         file_obj = open(path, 'rb')
         mtime = get_file_mtime(path)
         fsize = os.path.getsize(path)
+        if not mimetype:
+            mimetype, encoding = mimetypes.guess_type(path)
+        if not mimetype:
+            peeked = peek_file(file_obj, 1024)
+            is_binary = is_binary_string(peeked)
+            if peeked and is_binary:
+                mimetype = default_binary_mime
+            else:
+                mimetype = default_text_mime
     except (ValueError, IOError, OSError):
+        if file_obj is not None:
+            file_obj.close()
         raise Forbidden(is_breaking=False)
-    if not mimetype:
-        mimetype, encoding = mimetypes.guess_type(path)
-    if not mimetype:
-        peeked = peek_file(file_obj, 1024)
-        is_binary = is_binary_string(peeked)
-        if peeked and is_binary:
-            mimetype = default_binary_mime
-        else:
-            mimetype = default_text_mime
     resp.response = file_wrapper(file_obj)
     resp.content_type = mimetype
     resp.content_length = fsize
